@@ -1,6 +1,7 @@
 """FWD: the cloned()/copied() adaptors and their chunk pullers forward every method to the same-named method of the one
 inner iterator, with unchanged arguments, mapping the result only by clone/copy. EACH: the default algorithms.
 """
+import re
 from env import Ob
 from guards import block_facts, unref
 from terms import fmt, subterms
@@ -159,6 +160,14 @@ def rule_fwd(env, shared):
                 shape = "iter:E"
             elif wt[0] == "call" and wt[1] == "Option::map" and len(wt[2]) == 2 and unref(wt[2][0]) == hole:
                 clo = unref(wt[2][1])
+                if clo[0] == "fnref":
+                    # `opt.map(Iterator::copied)`: the mapping function named by path
+                    base = re.sub(r"::<[^>]*>$", "", clo[1].strip())
+                    last = base.rsplit("::", 1)[-1]
+                    if last in ("copied", "cloned") and "iter::Iterator" in base:
+                        shape = "option:iter:E"
+                    elif (last == "clone" and "Clone" in base) or (last in ("copied", "cloned") and "option::Option" in base):
+                        shape = "option:E"
                 if clo[0] == "agg" and clo[1].startswith("closure:"):
                     cb = F.bodies.get(clo[1][len("closure:"):])
                     if cb is not None:
